@@ -22,3 +22,7 @@ prop("C15", "other", "x", "x", "x", ["x"], "x")
 prop("C03", "translation_validation", "x", "x", "x", ["x"], "x")
 prop("C04", "translation_validation", "x", "x", "x", ["x"], "x")
 prop("C18", "translation_validation", "x", "x", "x", ["x"], "x")
+prop("C17", "other", "x", "x", "x", ["x"], "x")
+prop("C16", "other", "x", "x", "x", ["x"], "x")
+prop("C12", "other", "x", "x", "x", ["x"], "x")
+prop("C09", "other", "x", "x", "x", ["x"], "x")
